@@ -361,6 +361,34 @@ def check(pid, tier):
                 for i in idx:
                     mism.append({"shard": name, "index": i, "case": s["descs"][i]})
 
+    # advisory cases (harness: r.Advisory) and extension proof files (cfg: extra_files): what they state is NOT
+    # part of the property; a failure is a note in the evidence, never a violation
+    adv_shards = result.get("advisory_shards") or []
+    adv_ok, adv_mism = 0, []
+    if adv_shards:
+        with cf.ThreadPoolExecutor(max_workers=16) as ex:
+            for name, idx, out, dt in ex.map(run_shard, [(workdir, s["file"]) for s in adv_shards]):
+                s = next(x for x in adv_shards if x["file"] == name)
+                if idx is None:
+                    notes.append("advisory shard %s did not evaluate: %s" % (name, out[-300:]))
+                    continue
+                adv_ok += len(s["descs"]) - len(idx)
+                adv_mism += [s["descs"][i] for i in idx]
+        notes.append("advisory model cases (outside the property's statement; informational): %d of %d agree with the implementation"
+                     % (adv_ok, result.get("n_advisory", 0)))
+        if adv_mism:
+            notes.append("ADVISORY: the model no longer describes the implementation on %d inputs outside the property's statement, e.g. %s"
+                         % (len(adv_mism), "; ".join(d[:200] for d in adv_mism[:3])))
+    if cfg.get("extra_files"):
+        with Lock():
+            erc, eout = coq_make([f[:-2] + ".vo" for f in cfg["extra_files"]], timeout=cfg.get("make_timeout", 3000))
+        if erc == 0:
+            notes.append("extension theorems (not part of the property) hold on this tree: " + ", ".join(cfg["extra_files"]))
+        else:
+            em = re.search(r'File "\./([^"]+)", line (\d+), characters [^\n]*\n((?:.*\n){0,4})', eout)
+            notes.append("ADVISORY: extension theorems (not part of the property) no longer build: %s"
+                         % ((em.group(1) + ":" + em.group(2) + " " + em.group(3).strip()[:300]) if em else eout[-300:]))
+
     # ---- decide
     known, fixed = load_known(pid)
     fail_by_class = {}
